@@ -205,7 +205,7 @@ def extract_playback_tests(out):
 
 def kani_counterexample(mdir, g, harness, tier_cfgs=()):
     cmd = ["cargo", "kani", "-Z", "stubbing", "-Z", "unstable-options", "-Z", "concrete-playback",
-           "--concrete-playback=print", "--output-format", "terse", "--harness", harness, "--exact",
+           "--concrete-playback=print", "--no-assertion-reach-checks", "--output-format", "terse", "--harness", harness, "--exact",
            "--harness-timeout", f"{g.harness_timeout}s"]
     if g.features:
         cmd += ["--features", ",".join(g.features)]
